@@ -27,6 +27,11 @@ EXTRAS = [
     {"sql": "merge into t using (select k, v from s1 union select k, v from s2) q on t.k = q.k when matched then update set t.v = q.v when not matched then insert (k, v) values (q.k, q.v)", "dialect": "ansi", "metadata": None},
     {"sql": "insert into t select k from db.a join db.b on a.i = b.i", "dialect": "ansi", "metadata": {"db.a": ["k", "i"], "db.b": ["k", "i"]}},
     {"sql": "update t set a = s.a, b = s.b, c = u.c from s, u where t.k = s.k", "dialect": "ansi", "metadata": None},
+    # alias-less derived tables (their generated names carry a hash) sharing a column name under an unqualified star
+    {"sql": "insert into tgt select * from (select id, x from t1) join (select id, y from t2) using (id)", "dialect": "sparksql", "metadata": None},
+    {"sql": "insert into tgt select * from (select id, x from t1) join (select id, y from t2) using (id) join (select id, z from t3) using (id)", "dialect": "sparksql", "metadata": None},
+    {"sql": "insert into tgt select id, x, y from (select id, x from t1) join (select id, y from t2) using (id)", "dialect": "sparksql", "metadata": None},
+    {"sql": "create table tgt as select * from (select id, x from t1), (select id, y from t2)", "dialect": "ansi", "metadata": None},
     # a star over a derived table beside an anonymous WHERE sub-query (KF-38 under the legacy analyzer)
     {"sql": "insert into t select dq1.* from (select x.c as o from ta x) as dq1, (select y.d as o2 from tb y where y.e in (select f from tc)) dq2", "dialect": "non-validating", "metadata": None},
     {"sql": "insert into t select dq1.* from (select x.c as o from ta x) as dq1, (select y.d as o2 from tb y where y.e in (select f from tc)) dq2", "dialect": "ansi", "metadata": None},
